@@ -71,8 +71,11 @@ def parseFloatText (t : List Byte) : Option Decimal :=
 structure FloatOps (F : Type) where
   /-- correctly rounded decimal → double; `none` = magnitude too large (`strtod` returns ±HUGE_VAL, the stream fails) -/
   ofDecimal : Decimal → Option F
-  /-- `sprintf("%.15G", v)` -/
+  /-- what `WriteReal`'s `sprintf` loop leaves in its buffer: `sprintf("%.15G", v)`, or — repaired `WriteReal`, `dblOpsRT` — the
+      shortest of `%.15G`, `%.16G`, `%.17G` that converts back -/
   fmtG15 : F → List Byte
+  /-- plain `%.15G` (`ostream << double` with `precision(15)` in `STEPattribute::asStr`), whatever `WriteReal` does -/
+  fmtPlain15 : F → List Byte := fmtG15
   /-- bit-equal to `(double)FLT_MIN`, the in-band "unset" of REAL and NUMBER attributes -/
   isRealNull : F → Bool
 
@@ -133,10 +136,10 @@ def ascii (s : String) : List Byte := s.toList.map Char.toNat
 def dropTrailingZeros (ds : List Byte) : List Byte :=
   (ds.reverse.dropWhile (· == 48)).reverse
 
-/-- the `%G` layout of the significant digits `ds` of a number `d.ddd… · 10^x`: scientific style for `x < -4` or `x ≥ 15`
+/-- the `%.<p>G` layout of the significant digits `ds` of a number `d.ddd… · 10^x`: scientific style for `x < -4` or `x ≥ p`
     (the precision), fixed style otherwise; trailing zeros and a bare decimal point are dropped -/
-def fmtDigits (sg ds : List Byte) (x : Int) : List Byte :=
-  if x < -4 || x ≥ 15 then
+def fmtDigits (p : Nat) (sg ds : List Byte) (x : Int) : List Byte :=
+  if x < -4 || x ≥ (p : Int) then
     let fracPart := dropTrailingZeros (ds.drop 1)
     let ex := x.natAbs
     let exd : List Byte := (Nat.toDigits 10 ex).map Char.toNat
@@ -150,33 +153,36 @@ def fmtDigits (sg ds : List Byte) (x : Int) : List Byte :=
     let fracPart := dropTrailingZeros (List.replicate ((-x).toNat - 1) 48 ++ ds)
     sg ++ [48, 46] ++ fracPart
 
-/-- 15 significant decimal digits of the positive rational `n/d`: `(q, x)` with `q = round(n/d / 10^(x-14))`, a 15-digit
-    number, and `10^x ≤ n/d < 10^(x+1)` (after the carry of a round-up to `10^15`) -/
-def sig15 (n d : Nat) : Nat × Int :=
+/-- `p` significant decimal digits of the positive rational `n/d`: `(q, x)` with `q = round(n/d / 10^(x-p+1))`, a `p`-digit
+    number, and `10^x ≤ n/d < 10^(x+1)` (after the carry of a round-up to `10^p`) -/
+def sigDigits (p : Nat) (n d : Nat) : Nat × Int :=
   -- X with 10^X ≤ n/d < 10^(X+1)
   let ge (x : Int) : Bool := if x ≥ 0 then d * 10 ^ x.toNat ≤ n else d ≤ n * 10 ^ (-x).toNat
   let x0 : Int := ((Nat.toDigits 10 n).length : Int) - ((Nat.toDigits 10 d).length : Int)
   let x : Int := if ge (x0 + 1) then x0 + 1 else if ge x0 then x0 else x0 - 1
-  let sh : Int := x - 14
+  let sh : Int := x - ((p : Int) - 1)
   let q : Nat := if sh ≥ 0 then roundDiv n (d * 10 ^ sh.toNat) else roundDiv (n * 10 ^ (-sh).toNat) d
-  if q == 10 ^ 15 then (10 ^ 14, x + 1) else (q, x)
+  if q == 10 ^ p then (10 ^ (p - 1), x + 1) else (q, x)
 
-/-- the finite non-zero case of `%.15G`: sign, significand `m`, binary exponent `e2` -/
-def fmtFinite (sg : List Byte) (m : Nat) (e2 : Int) : List Byte :=
+/-- the finite non-zero case of `%.<p>G`: sign, significand `m`, binary exponent `e2` -/
+def fmtFinite (p : Nat) (sg : List Byte) (m : Nat) (e2 : Int) : List Byte :=
   let n : Nat := if e2 ≥ 0 then m * pow2 e2.toNat else m
   let d : Nat := if e2 ≥ 0 then 1 else pow2 (-e2).toNat
-  let p := sig15 n d
-  fmtDigits sg ((Nat.toDigits 10 p.1).map Char.toNat) p.2     -- exactly 15 digits
+  let q := sigDigits p n d
+  fmtDigits p sg ((Nat.toDigits 10 q.1).map Char.toNat) q.2     -- exactly p digits
 
-/-- `sprintf("%.15G")` of a bit pattern -/
-def fmtG15 (bits : Nat) : List Byte :=
+/-- `sprintf("%.<p>G")` of a bit pattern (`p ≥ 1`) -/
+def fmtG (p : Nat) (bits : Nat) : List Byte :=
   let neg := bits / signBit % 2 == 1
   let be := bits / pow2 52 % 2048
   let fr := bits % pow2 52
   let sg : List Byte := if neg then [45] else []
   if be == 2047 then sg ++ (if fr == 0 then ascii "INF" else ascii "NAN")
   else if be == 0 && fr == 0 then sg ++ [48]
-  else fmtFinite sg (if be == 0 then fr else fr + pow2 52) (if be == 0 then -1074 else (be : Int) - 1075)
+  else fmtFinite p sg (if be == 0 then fr else fr + pow2 52) (if be == 0 then -1074 else (be : Int) - 1075)
+
+/-- `sprintf("%.15G")` of a bit pattern -/
+def fmtG15 (bits : Nat) : List Byte := fmtG 15 bits
 
 /-- `(double)FLT_MIN` = 2^-126 -/
 def realNullBits : Nat := (1023 - 126) * pow2 52
@@ -188,5 +194,33 @@ def dblOps : FloatOps Nat where
   ofDecimal := Dbl.ofDecimal
   fmtG15 := Dbl.fmtG15
   isRealNull := fun b => b == Dbl.realNullBits
+
+namespace Dbl
+
+/-- `strtod( text ) == val`: the text converts back to exactly this double -/
+def readsBack (text : List Byte) (bits : Nat) : Bool :=
+  match parseFloatText text with
+  | some d => ofDecimal d == some bits
+  | none => false
+
+/-- the text the repaired `WriteReal` ends its loop with (fixes/C09-10): `%.15G`; when that does not convert back to the
+    value, `%.16G`; when that does not either, `%.17G` -/
+def fmtShortest (bits : Nat) : List Byte :=
+  if readsBack (fmtG 15 bits) bits then fmtG 15 bits
+  else if readsBack (fmtG 16 bits) bits then fmtG 16 bits
+  else fmtG 17 bits
+
+end Dbl
+
+/-- the executable instance for the repaired `WriteReal`: the printed text is the shortest of `%.15G`, `%.16G`, `%.17G` that
+    converts back (the field keeps its name: it is "what `WriteReal`'s `sprintf` leaves in the buffer") -/
+def dblOpsRT : FloatOps Nat where
+  ofDecimal := Dbl.ofDecimal
+  fmtG15 := Dbl.fmtShortest
+  fmtPlain15 := Dbl.fmtG15
+  isRealNull := fun b => b == Dbl.realNullBits
+
+/-- the instance that follows the source: `roundTrips` is regenerated from the shape of `WriteReal` -/
+def dblOpsOf (roundTrips : Bool) : FloatOps Nat := if roundTrips then dblOpsRT else dblOps
 
 end StepModel
